@@ -670,15 +670,7 @@ def run_group_validate(ctx, members, n_each, hed):
                 ctx.disagree("GroupValidate.raises = the validator raises", case, False, exc)
             continue
         mine = sorted((c01.canon_model(i) for i in m["issues"]), key=json.dumps)
-        # Model/Validate.lean (C01's, shared) still applies the capitalisation rule to the text WITH its namespace
-        # (the code before fix de26284); until `styleIssues` drops `t.ns`, style warnings on prefixed tags are left out
-        # of this comparison on both sides (the rule for prefixed tags is checked by the relational oracle, SIG_CAP)
-        def prefixed_style(x):
-            return x[1] == "STYLE_WARNING" and x[3] is not None and ":" in tp[x[3][0]:x[3][1]].split("/")[0]
-        n0, impl0 = len(mine) + len(impl), impl
-        mine, impl = [x for x in mine if not prefixed_style(x)], [x for x in impl if not prefixed_style(x)]
-        if len(mine) + len(impl) != n0:
-            ctx.count("gv:style-warnings-on-prefixed-tags-left-out")
+        impl0 = impl
         ctx.count("gv:compared")
         ctx.count("gv:theorem-hypotheses-" + ("hold" if m["hmod"] and m["hreq"] else "fail(mixed generation)" if not m["hmod"] else "fail"))
         if m["hmod"] and m["hreq"] and not m["eq_single"]:
